@@ -396,6 +396,10 @@ func (e *exec) fieldInner(objType, objID string, fd *ast.FieldDefinition, f *ast
 	}
 	switch kind {
 	case KError, KAddErrNull:
+		if kind == KError && p.SharedErr(path) {
+			e.addErr(path, "S:shared")
+			return parsers.NewNull()
+		}
 		e.addErr(path, p.ErrMsg(path))
 		return parsers.NewNull()
 	case KPanic:
@@ -515,7 +519,7 @@ func SortedErrs(errs []Err) []string {
 // ClassOf maps a message from a real response to the class used by the model.
 func ClassOf(msg string) string {
 	switch {
-	case strings.HasPrefix(msg, "E:"), strings.HasPrefix(msg, "D:"), strings.HasPrefix(msg, "P:"), strings.HasPrefix(msg, "A:"), strings.HasPrefix(msg, "M:"), strings.HasPrefix(msg, "O:"), strings.HasPrefix(msg, "I:"), strings.HasPrefix(msg, "R:"), strings.HasPrefix(msg, "C:"):
+	case strings.HasPrefix(msg, "E:"), strings.HasPrefix(msg, "D:"), strings.HasPrefix(msg, "P:"), strings.HasPrefix(msg, "A:"), strings.HasPrefix(msg, "M:"), strings.HasPrefix(msg, "O:"), strings.HasPrefix(msg, "I:"), strings.HasPrefix(msg, "R:"), strings.HasPrefix(msg, "C:"), strings.HasPrefix(msg, "S:"):
 		return msg
 	case strings.HasPrefix(msg, "recovered:"):
 		return strings.TrimPrefix(msg, "recovered:")
